@@ -295,6 +295,9 @@ def run(ctx):
     for spec in [x for x in c12.OPS if x[2] in ("__mul__", "__rmul__", "__truediv__", "normalize", "copy") and x[1] != "HistogramCollection"]:
         c12.check_op(ctx, m, "C06.c", "C06.c", *spec)
 
+    from rules import c13
+    c13.check_operator_coercion(ctx, "C06.c", m)
+
     ctx.rule("C06.d", "histogram operands refused first; no reflected division / power operators; contents via setters", 4)
     for name in ("__imul__", "__itruediv__"):
         fi = HB.methods[name]
